@@ -92,6 +92,7 @@ def Expr.toks : Nat → Expr → List Token
   | prec, .and a b => paren (decide (prec > 1)) (a.toks 1 ++ [tk .and b!"AND"] ++ b.toks 2)
   | prec, .or a b => paren (decide (prec > 0)) (a.toks 0 ++ [tk .or b!"OR"] ++ b.toks 1)
   | _, .not a => [tk .not b!"NOT", lp] ++ a.toks 0 ++ [rp]
+  | _, .group a => lp :: (a.toks 0 ++ [rp])
 
 
 variable (nok : NumOK)
@@ -451,6 +452,7 @@ def Expr.OK (nok : NumOK) : Expr → Prop
   | .and a b => a.OK nok ∧ b.OK nok
   | .or a b => a.OK nok ∧ b.OK nok
   | .not a => a.OK nok
+  | .group a => a.OK nok
 
 /-- fuel that suffices to parse the canonical tokens of an expression -/
 def Expr.need : Expr → Nat
@@ -463,6 +465,7 @@ def Expr.need : Expr → Nat
   | .and a b => a.need + b.need + 20
   | .or a b => a.need + b.need + 20
   | .not a => a.need + 12
+  | .group a => a.need + 12
 
 /-- fuel for the expression as a comparison-level operand (AND and OR chains stand in parentheses there) -/
 def Expr.tU : Expr → Nat
@@ -704,6 +707,16 @@ theorem levels (toks : List Token) (e : Expr) (he : e.OK nok) : Levels nok toks 
     have hlen : i + (Expr.toks 2 (Expr.not a)).length = i + 1 + 1 + (a.toks 0).length + 1 := by simp [Expr.toks]; omega
     rw [hlen] at hf ⊢
     exact unit_not nok toks a La.O i rest g h (by omega) hf
+  | group a ih =>
+    have La := ih he
+    apply levels_of_unit nok toks _ rfl rfl rfl rfl rfl rfl
+    intro i rest F h hf hF
+    simp only [Expr.toks, List.append_assoc, List.cons_append, List.nil_append] at h
+    simp only [Expr.tU, Expr.need] at hF
+    obtain ⟨g, rfl⟩ : ∃ g, F = g + 5 := ⟨F - 5, by omega⟩
+    have hlen : i + (Expr.toks 2 (Expr.group a)).length = i + 1 + (a.toks 0).length + 1 := by simp [Expr.toks]; omega
+    rw [hlen] at hf ⊢
+    exact unit_paren nok toks a La.O i rest g h (by omega) hf
   | and a b iha ihb =>
     obtain ⟨ha, hb⟩ := he
     have La := iha ha
